@@ -97,6 +97,19 @@ theorem frame_roundtrip (crc : Bytes → Nat) (hcrc : ∀ x, crc x < 2 ^ 32) (k 
   rw [cfg_is_spec]
   exact read_encRaw crc k seq rnd p rest (by omega) (by omega) (fun _ => h4) (by omega) hcrc hseq (by omega)
 
+/-- Corollary: frame boundaries are unambiguous.  If the wire forms of two valid payloads (same
+protocol and counter, any padding randomness), each followed by arbitrary bytes, are the same byte
+stream, then the payloads and the following bytes are the same — no stream can be framed in two ways. -/
+theorem frame_boundaries_unambiguous (crc : Bytes → Nat) (hcrc : ∀ x, crc x < 2 ^ 32) (k : Kind) (seq : Int)
+    (hseq : -2 ^ 31 ≤ seq ∧ seq < 2 ^ 31) (rnd₁ rnd₂ : Bytes) (h1 : rnd₁.length = 4) (h2 : rnd₂.length = 4)
+    (p q r₁ r₂ : Bytes) (hp : Valid p) (hq : Valid q)
+    (h : encRaw cfg crc k seq rnd₁ p ++ r₁ = encRaw cfg crc k seq rnd₂ q ++ r₂) : p = q ∧ r₁ = r₂ := by
+  have a := frame_roundtrip crc hcrc k seq hseq rnd₁ h1 p r₁ hp
+  have b := frame_roundtrip crc hcrc k seq hseq rnd₂ h2 q r₂ hq
+  rw [h, b] at a
+  injection a with x y
+  exact ⟨x.symm, y.symm⟩
+
 /-- **Whole streams.**  A receiver reading the stream produced for any sequence of valid payloads gets
 exactly that sequence, in order, and the stream is used up (full: counters `seq, seq+1, …`). -/
 theorem stream_roundtrip (crc : Bytes → Nat) (hcrc : ∀ x, crc x < 2 ^ 32) (k : Kind) (seq : Int)
